@@ -1,5 +1,7 @@
 """C08 — instruction encodings agree with the architecture reference (RV32.tla, X64.tla; idioms M + G + E)."""
-from harness import asmgen
+import os
+
+from harness import asmgen, core
 from harness import armgen
 from harness import x64gen
 from harness import mipsgen
@@ -46,15 +48,27 @@ class Engine:
 
     def run(self, ctx):
         thorough = (ctx.only.get("tier", ctx.tier) if ctx.only else ctx.tier) == "thorough"
-        if armgen.c08_part(ctx, thorough): return  # thumb / arm (tla/Thumb.tla, tla/Arm32.tla); True: a replay of one of its cases
-        if x64gen.c08_part(ctx, thorough): return  # x86_64 (tla/X64.tla); True: a replay of one of its cases
-        if mipsgen.c08_part(ctx, thorough): return  # mips (tla/Mips.tla); True: a replay of one of its cases
-        if or1kgen.c08_part(ctx, thorough): return  # or1k (tla/Or1k.tla); True: a replay of one of its cases
-        if mbgen.c08_part(ctx, thorough): return  # microblaze (tla/MicroBlaze.tla); True: a replay of one of its cases
-        if msp430gen.c08_part(ctx, thorough): return  # msp430 (tla/Msp430.tla); True: a replay of one of its cases
-        if avrgen.c08_part(ctx, thorough): return  # avr (tla/Avr.tla); True: a replay of one of its cases
-        if m68kgen.c08_part(ctx, thorough): return  # m68k (tla/M68k.tla); True: a replay of one of its cases
-        if xtensagen.c08_part(ctx, thorough): return  # xtensa (tla/Xtensa.tla); True: a replay of one of its cases
+        # one part per instruction set (the riscv part is the rest of this method); a replay runs them in
+        # turn until one recognises its case, a normal run forks them side by side (core.run_parts)
+        parts = [
+            ("arm", lambda c: armgen.c08_part(c, thorough)),        # thumb / arm (tla/Thumb.tla, tla/Arm32.tla)
+            ("x86_64", lambda c: x64gen.c08_part(c, thorough)),     # tla/X64.tla
+            # mips, or1k, microblaze share one M+G run and one E run (tla/Risc3_MC.tla, Risc3_Eval.tla)
+            ("risc3", lambda c: mipsgen.c08_part(c, thorough) or or1kgen.c08_part(c, thorough) or mbgen.c08_part(c, thorough)),
+            ("msp430", lambda c: msp430gen.c08_part(c, thorough)),  # tla/Msp430.tla
+            ("avr", lambda c: avrgen.c08_part(c, thorough)),        # tla/Avr.tla
+            ("m68k", lambda c: m68kgen.c08_part(c, thorough)),      # tla/M68k.tla
+            ("xtensa", lambda c: xtensagen.c08_part(c, thorough)),  # tla/Xtensa.tla
+            ("riscv", lambda c: self.riscv_part(c, thorough)),      # tla/RV32.tla
+        ]
+        if ctx.only is not None:
+            for _, fn in parts:
+                if fn(ctx):
+                    return
+            return
+        core.run_parts(ctx, parts, jobs=int(os.environ.get("VERIF_JOBS", "8")))
+
+    def riscv_part(self, ctx, thorough):
         ctx.rule("every concrete instruction class of ppci.arch.riscv (isa, rvcisa) x {each register slot swept over "
                  "x0..x31, diagonal, every in-range boundary immediate / displacement enumerated by TLC from "
                  "RV32.FieldRange, symbol addresses for %hi/%lo forms}; bytes = encode() (+ own relocation applied; "
